@@ -652,6 +652,18 @@ class Idioms3(ast.NodeTransformer):
     def visit_Call(self, node):
         self.generic_visit(node)
         fn = norm(node.func)
+        # s.endswith(("a", "b")) -> s.endswith("a") or s.endswith("b")
+        if isinstance(node.func, ast.Attribute) and node.func.attr in (
+                "startswith", "endswith") and len(node.args) == 1 and \
+                not node.keywords and isinstance(
+                    node.args[0], ast.Tuple) and 1 <= len(
+                    node.args[0].elts) <= self.MAX and isinstance(
+                    node.func.value, (ast.Name, ast.Attribute)):
+            alts = [ast.Call(func=clone(node.func), args=[e], keywords=[])
+                    for e in node.args[0].elts]
+            new = alts[0] if len(alts) == 1 else ast.BoolOp(op=ast.Or(),
+                                                            values=alts)
+            return ast.fix_missing_locations(ast.copy_location(new, node))
         # any(C(i) for i in range(<small literal>)) -> C(0) or C(1) or ...
         if fn in ("any", "all") and len(node.args) == 1 and \
                 not node.keywords and isinstance(
@@ -1121,8 +1133,11 @@ def literal_iterables(fn):
         # names of the items must not be re-bound in fn
         item_names = {n.id for n in ast.walk(st.value)
                       if isinstance(n, ast.Name)}
+        in_loop_ = any(isinstance(lp, (ast.For, ast.While)) and any(
+            x is st for x in ast.walk(lp)) for lp in ast.walk(fn))
         rebound = {n.id for n in ast.walk(fn) if isinstance(n, ast.Name)
-                   and isinstance(n.ctx, (ast.Store, ast.Del))}
+                   and isinstance(n.ctx, (ast.Store, ast.Del))
+                   and (in_loop_ or getattr(n, "lineno", 0) >= st.lineno)}
         if (item_names - {p_.targets[0].id for p_ in pre}) & rebound:
             continue
         for ld in loads:
